@@ -298,8 +298,15 @@ def check_iso_profiles(args):
             n += 1
             isoforms = {"t1": iso1, "t2": iso2}
             exons = sorted(set(iso1) | set(iso2))
-            introns = sorted(set(C.junctions_from_blocks(iso1)) | set(C.junctions_from_blocks(iso2)))
-            split = GeneInfo.split_exons(exons)
+            try:
+                introns = sorted(set(C.junctions_from_blocks(iso1)) | set(C.junctions_from_blocks(iso2)))
+                split = GeneInfo.split_exons(exons)
+                if split != split_reference(exons):
+                    bad.append(("split_exons", [exons], split, split_reference(exons)))
+                    continue
+            except Exception as e:  # noqa
+                bad.append(("split_exons", [exons], "EXC " + repr(e), "no exception"))
+                continue
             if iso1 != iso2 and pos(iso1) & pos(iso2):
                 nontriv += 1
             for kind, feats, cmpf in (("exon", exons, partial(C.equal_ranges, delta=0)),
@@ -310,7 +317,11 @@ def check_iso_profiles(args):
                 for t, ex in isoforms.items():
                     tf = ex if kind != "intron" else C.junctions_from_blocks(ex)
                     region = (ex[0][0], ex[-1][1])
-                    fp.set_profiles(t, tf, region, cmpf)
+                    try:
+                        fp.set_profiles(t, tf, region, cmpf)
+                    except Exception as e:  # noqa
+                        bad.append(("set_profiles/" + kind, [feats, t, ex], "EXC " + repr(e), "no exception"))
+                        break
                     prof = fp.profiles[t]
                     for k, f in enumerate(feats):
                         if kind == "split":
@@ -342,7 +353,7 @@ def check_read_profiles(args):
         iso1, iso2 = known_sets[ki]
         exons = sorted(set(iso1) | set(iso2))
         introns = sorted(set(C.junctions_from_blocks(iso1)) | set(C.junctions_from_blocks(iso2)))
-        split = GeneInfo.split_exons(exons)
+        split = split_reference(exons)      # split_exons itself is decided separately; profiles get the reference split
         gene_region = (exons[0][0], max(e[1] for e in exons))
         for delta in deltas:
             cmpf = partial(C.equal_ranges, delta=delta)
@@ -351,6 +362,15 @@ def check_read_profiles(args):
             spc = NonOverlappingFeaturesProfileConstructor(split, comparator=C.overlaps, delta=delta)
             for blocks in lists:
                 n += 1
+                try:
+                    err = _read_profile_case(C, ipc, epc, spc, introns, exons, split, blocks, delta)
+                except Exception as e:  # noqa
+                    err = ("profile constructor", [exons, blocks, delta], "EXC " + repr(e), "no exception")
+                if err:
+                    bad.append(err)
+                if C.junctions_from_blocks(blocks) and introns:
+                    nontriv += 1
+                continue
                 rintrons = C.junctions_from_blocks(blocks)
                 if rintrons and introns:
                     nontriv += 1
@@ -385,6 +405,35 @@ def check_read_profiles(args):
                                         "read block %s overlapped=%s" % (r, ov)))
                             break
     return n, nontriv, [(a, b, repr(c), repr(d)) for a, b, c, d in bad[:20]]
+
+
+def _read_profile_case(C, ipc, epc, spc, introns, exons, split, blocks, delta):
+    rintrons = C.junctions_from_blocks(blocks)
+    if introns:
+        mp = ipc.construct_intron_profile(blocks)
+        span = (blocks[0][0], blocks[-1][1])
+        err = overl_oracle(mp, introns, rintrons, span, delta, C)
+        if err:
+            return ("construct_intron_profile", [introns, blocks, delta], mp.gene_profile, err)
+    mp = epc.construct_exon_profile(blocks)
+    region = (blocks[0][1] + delta, blocks[-1][0] - delta)
+    err = overl_oracle(mp, exons, blocks, region, delta, C)
+    if err:
+        return ("construct_exon_profile", [exons, blocks, delta], mp.gene_profile, err)
+    if delta == 0:
+        mp = spc.construct_profile(blocks)
+        for k, b in enumerate(split):
+            ov = any(C.overlaps(b, r) for r in blocks)
+            between = (not ov) and any(r[1] < b[0] for r in blocks) and any(r[0] > b[1] for r in blocks)
+            exp = 1 if ov else (-1 if between else 0)
+            if mp.gene_profile[k] != exp:
+                return ("NonOverlapping.construct_profile", [split, blocks], mp.gene_profile, "block %s expected %d" % (b, exp))
+        for k, r in enumerate(blocks):
+            ov = any(C.overlaps(b, r) for b in split)
+            if (mp.read_profile[k] == 1) != ov:
+                return ("NonOverlapping.construct_profile/read", [split, blocks], mp.read_profile,
+                        "read block %s overlapped=%s" % (r, ov))
+    return None
 
 
 def overl_oracle(mp, known, read_feats, mapped_region, delta, C):
